@@ -163,6 +163,9 @@ func HandleBulkBody(postBody []byte, ctx *fasthttp.RequestCtx, rid uint64, myid 
 			break
 		}
 
+		// the size verdict belongs to this item only
+		maxRecordSizeExceeded = false
+
 		inCount++
 		if inCount >= len(items) {
 			newArr := make([]interface{}, 100)
